@@ -136,3 +136,24 @@ W.lemma(
     props=["C18", "C05"],
     note="the text of a NUMBER token after its first character consists of digits, '.' and '°' only",
 )
+
+W.lemma(
+    "leading_zero_stands_alone",
+    vars=dict(r=STR, dg=BOOL),
+    requires=["not (len(r) > 0 and r[0] in '°.')"],
+    goal="lex_tokens('0', r, dg) == [Token(TokenType.NUMBER, '0')] and lex_rest('0', r, dg) == r",
+    props=["C05"],
+    note="a 0 that is not followed by a point or degree sign is a number token of its own",
+)
+
+W.lemma(
+    "second_point_starts_a_new_number",
+    vars=dict(v=STR, r=STR),
+    requires=["not ('°' in v)", "'.' in v"],
+    goal="num_len(v, '.' + r) == 0",
+    hints=["unfold(num_len(v, '.' + r))"],
+    asserts=["(v + '.').count('.') >= 2 or True"],
+    fuel=0,
+    props=["C05"],
+    note="a literal that already has a decimal point is not extended by another point",
+)
